@@ -54,7 +54,7 @@ def c13_project(seed, nfiles, mode, reps):
     rcn, nout, _ = gen_once(noisy, mode)
     cases.append(Case(dict(desc, what="noise"), {"noise_irrelevant": {k: v for k, v in nout.items() if k != ".typecache"}
                                                == {k: v for k, v in base.items() if k != ".typecache"}}))
-    for what, tr in (("reorder", projgen.reorder), ("move", projgen.move_items)):
+    for what, tr in (("reorder", projgen.reorder), ("move", projgen.move_items), ("split", projgen.split_helpers)):
         rct, tout, _ = gen_once(projgen.render(tr(p, seed + 2)), mode)
         ok = rct == 0 and all(sorted(proc.blocks(tout.get(n, ""))) == sorted(proc.blocks(base[n]))
                               for n in base if n.endswith(".ts"))
